@@ -44,7 +44,7 @@ P3 = dict(BASE, comps=("a", "b"), fixed_comps=("c",), provide_keys=("k",), slot_
 def bounds(tier):
     if tier == "thorough":
         return [("p1", P1, 5, 0), ("p2", P2, 6, 0), ("p3", P3, 5, 0)]
-    return [("p1", P1, 4, 0), ("p2", P2, 5, 0)]
+    return [("p1", P1, 4, 0), ("p2", P2, 5, 0), ("p3", P3, 4, 0)]
 
 
 def nontrivial(prog):
